@@ -73,8 +73,9 @@ fn main() {
         let mut next_w = 1u64;
         let mut max_live = 0usize;
         let len = rng.range(3, 14);
+        let mut forced: std::collections::VecDeque<u64> = Default::default();
         for _ in 0..len {
-            let r = rng.below(100);
+            let r = forced.pop_front().unwrap_or_else(|| rng.below(100));
             if live.is_empty() || r < 45 {
                 let valid = if rng.chance(1, 5) { 1 + rng.below(2) as u8 } else { 0 };
                 let build_ok = !(kind == 1 && rng.chance(1, 6));
@@ -111,11 +112,23 @@ fn main() {
                     codes.push(code_of(&res));
                     ops.push(LOp::DropW { w, wait });
                 } else {
-                    // kill the writer's pipeline with a storage fault during commit; the object stays alive
+                    // kill the writer's pipeline with a storage fault; the object stays alive.  Two ways: the worker dies inside
+                    // a commit (prepare_commit re-creates the pipeline), or while it is just indexing -- then the writer's
+                    // status stays 'killed' until the next rollback, which must still hand the lock over
                     if kind == 1 {
                         vd.set_fault(Some(vd.log_len()), true, vec![OpKind::Create, OpKind::Write, OpKind::Terminate]);
-                        let _ = guarded(|| { let _ = live[i].1.add_document(doc!(text => "x")); live[i].1.commit() });
+                        if rng.chance(1, 2) {
+                            let _ = guarded(|| { let _ = live[i].1.add_document(doc!(text => "x")); live[i].1.commit() });
+                        } else {
+                            let t0 = std::time::Instant::now();
+                            while t0.elapsed() < std::time::Duration::from_secs(3) {
+                                match guarded(|| live[i].1.add_document(doc!(text => "x"))) { Ok(Ok(_)) => std::thread::sleep(std::time::Duration::from_millis(3)), _ => break }
+                            }
+                            out.count("workers_killed_while_indexing", 1);
+                        }
                         vd.set_fault(None, false, vec![]);
+                        // directed follow-up: roll the killed writer back, then try to create another one
+                        if rng.chance(2, 3) { forced.push_back(50); forced.push_back(10); }
                     }
                     codes.push(0);
                     ops.push(LOp::WorkerFailure { w });
@@ -183,6 +196,40 @@ fn main() {
             drop(guards);
             out.count("lock_file_sequences", 1);
         }
+    }
+    // a second writer while the first one is still inside wait_merging_threads(): the lock follows the writer's lifetime,
+    // and a writer that is waiting for its merges is alive (it will still publish their result)
+    for it in 0..(if thorough { 40 } else { 8 }) {
+        let vd = VerifDirectory::new();
+        let index = Index::create(vd.clone(), schema.clone(), IndexSettings::default()).unwrap();
+        let mut w: IndexWriter<TantivyDocument> = index.writer_with_num_threads(1, 15_000_000).unwrap();
+        w.set_merge_policy(Box::new(tantivy::indexer::NoMergePolicy));
+        for c in 0..(2 + it % 3) { for d in 0..5 { w.add_document(doc!(text => format!("w{c} x{d}"))).unwrap(); } w.commit().unwrap(); }
+        let ids = index.searchable_segment_ids().unwrap();
+        // slow the merge thread down inside its file writes
+        vd.set_hook(Some(Arc::new(move |_vd, _seq, kind, _path| {
+            if std::thread::current().name().map(|n| n.starts_with("merge_thread")).unwrap_or(false) && matches!(kind, OpKind::Create | OpKind::Terminate) { std::thread::sleep(std::time::Duration::from_millis(40)); }
+        })));
+        let _merge_future = w.merge(&ids);
+        let done = Arc::new(std::sync::atomic::AtomicBool::new(false));
+        let done2 = done.clone();
+        let waiter = std::thread::spawn(move || { let r = w.wait_merging_threads(); done2.store(true, std::sync::atomic::Ordering::SeqCst); r });
+        let mut attempts = 0u64;
+        let mut intruders = 0u64;
+        while !done.load(std::sync::atomic::Ordering::SeqCst) && attempts < 400 {
+            let r = guarded(|| index.writer_with_num_threads::<TantivyDocument>(1, 15_000_000));
+            let still_waiting = !done.load(std::sync::atomic::Ordering::SeqCst);
+            if still_waiting { attempts += 1; if matches!(r, Ok(Ok(_))) { intruders += 1; } }
+            drop(r);
+            std::thread::sleep(std::time::Duration::from_millis(2));
+        }
+        let _ = waiter.join();
+        vd.set_hook(None);
+        out.spec_checked(intruders == 0, json!({"what": "a second IndexWriter was created while the first one was still inside wait_merging_threads() (its merge was still running)", "attempts_while_waiting": attempts, "succeeded": intruders}));
+        let again = guarded(|| index.writer_with_num_threads::<TantivyDocument>(1, 15_000_000));
+        out.spec_checked(matches!(again, Ok(Ok(_))), json!({"what": "lock not released after wait_merging_threads returned"}));
+        out.count("wait_merging_threads_races", 1);
+        out.count("creation_attempts_during_wait", attempts);
     }
     // racing creations: exactly one winner, the others get a lock failure, and the lock is free again afterwards
     let races = if thorough { 200 } else { 40 };
